@@ -181,8 +181,6 @@ Definition tb_body (ext : Z) (tb : list obsitem) (p : pos) : N :=
                           else 0%N
   | _ => 0%N
   end.
-Fixpoint nodup_posb (l : list pos) : bool :=
-  match l with [] => true | p :: r => negb (mem_pos p r) && nodup_posb r end.
 Definition first_bad (l : list (bool * nat)) : nat :=
   match find (fun x => negb (fst x)) l with Some x => snd x | None => O end.
 
